@@ -214,6 +214,21 @@ func runC13(c *kit.Ctx) {
 									if l, ok := rr.(*ssa.UnOp); ok {
 										uses(l)
 									}
+									// captured by a function literal: asynchronous iff the literal is only ever started
+									// with go (go func() { _, _ = s.SendRPC(rpc) }())
+									if mc, ok := rr.(*ssa.MakeClosure); ok {
+										async := len(kit.Referrers(mc)) > 0
+										for _, cr := range kit.Referrers(mc) {
+											if _, isGo := cr.(*ssa.Go); !isGo {
+												async = false
+											}
+										}
+										if async {
+											nUse++
+										} else {
+											onlyAsync = false
+										}
+									}
 								}
 							} else {
 								onlyAsync = false
@@ -283,6 +298,9 @@ func runC13(c *kit.Ctx) {
 	// ---- R2 -----------------------------------------------------------------
 	c.StartRule("R8", "no mutex is held across a blocking operation (Lock() watches no context)", 1)
 	noBlockingWhileLocked(c, false)
+	noRecursiveLocking(c)
+	lockPairing(c, "/gohbase/region")
+	lockPairing(c, "/gohbase")
 
 	c.StartRule("R2", "waits for a call's result also watch that call's own context", 2)
 	callerBatchIsNotRewritten(c)
@@ -337,14 +355,8 @@ func runC13(c *kit.Ctx) {
 			n++
 			guarded := false
 			for _, f := range kit.FactsAt(call.Block()) {
-				cmp, ok := kit.CanonCmp(f.Cond, f.Pol)
-				if !ok || cmp.Op != token.EQL || !kit.IsNilConst(cmp.Y) {
-					continue
-				}
-				if e, ok := cmp.X.(*ssa.Call); ok && kit.CalleeName(e) == ctxErr {
-					if cc, ok := e.Call.Value.(*ssa.Call); ok && kit.CalleeName(cc) == hrpcCall+"Context" {
-						guarded = true
-					}
+				if done, ok := callContextFact(f); ok && !done {
+					guarded = true
 				}
 			}
 			c.Check(guarded, mtp, "serialise-live-call", call.Pos(), "serialised only on the edge c.Context().Err() == nil", "a call is serialised into the multi request without testing its context")
